@@ -54,7 +54,7 @@ def strip_comments(src):
     return ''.join(out)
 
 
-def proof_step(pid, log):
+def proof_step(pid, log, area='base'):
     """returns dict(obligations, discharged, theorems=[(name, assumptions)], ok, errors)"""
     import gen_facts
     res = {'obligations': 0, 'discharged': 0, 'theorems': [], 'ok': False, 'errors': []}
@@ -63,8 +63,7 @@ def proof_step(pid, log):
             gen_facts.generate(REPO, os.path.join(COQ, 'gen'))
         except Exception as e:
             res['errors'].append('gen_facts failed: %r' % (e,))
-        if not os.path.exists(os.path.join(COQ, 'Makefile')):
-            sh('coq_makefile -f _CoqProject -o Makefile', cwd=COQ)
+        sh('sh %s/tools/coqproject.sh' % VERIF)
         # forbidden constructs anywhere in the development
         for fn in sorted(os.listdir(COQ)) + ['gen/' + x for x in sorted(os.listdir(os.path.join(COQ, 'gen')))]:
             if fn.endswith('.v'):
@@ -72,17 +71,17 @@ def proof_step(pid, log):
                 m = FORBIDDEN.search(src)
                 if m: res['errors'].append('forbidden construct %r in %s' % (m.group(0), fn))
         t0 = time.time()
-        rc, out = sh('timeout 3000 make -k -j16 Properties_%s.vo Extract.vo 2>&1 | grep -v "^COQC\\|^COQDEP\\|conda\\|pyenv\\|shims" | tail -40' % pid, cwd=COQ)
+        rc, out = sh('timeout 3000 make -k -j16 Properties_%s.vo Extract_%s.vo 2>&1 | grep -v "^COQC\\|^COQDEP\\|conda\\|pyenv\\|shims" | tail -40' % (pid, area), cwd=COQ)
         log.append('make: %.1fs' % (time.time() - t0))
         built = os.path.exists(os.path.join(COQ, 'Properties_%s.vo' % pid)) and \
             os.path.getmtime(os.path.join(COQ, 'Properties_%s.vo' % pid)) >= os.path.getmtime(os.path.join(COQ, 'Properties_%s.v' % pid))
         if 'Error' in out or not built:
             res['errors'].append('coq build failed: ' + out[-1500:])
         # (re)build the OCaml driver when the extracted model or the driver sources changed
-        drv = os.path.join(VERIF, 'ocaml', 'driver')
-        srcs = [os.path.join(COQ, 'model.ml')] + [os.path.join(VERIF, 'ocaml', f) for f in ('driver.ml', 'handlers.ml', 'main.ml')]
+        drv = os.path.join(VERIF, 'ocaml', 'driver_' + area)
+        srcs = [os.path.join(COQ, 'model_%s.ml' % area)] + [os.path.join(VERIF, 'ocaml', f) for f in ('driver.ml', 'h_%s.ml' % area, 'main.ml')]
         if os.path.exists(srcs[0]) and (not os.path.exists(drv) or any(os.path.getmtime(s) > os.path.getmtime(drv) for s in srcs)):
-            rc2, out2 = sh(os.path.join(VERIF, 'ocaml', 'build.sh'))
+            rc2, out2 = sh('sh %s %s' % (os.path.join(VERIF, 'ocaml', 'build.sh'), area))
             if rc2 != 0: res['errors'].append('ocaml driver build failed: ' + out2[-800:])
         # per-theorem assumptions: re-run the property file alone
         pf = os.path.join(COQ, 'Properties_%s.v' % pid)
@@ -117,8 +116,10 @@ def proof_step(pid, log):
     return res
 
 
-def build_impl(tmp, log, extra_flags='', name='impl', sanitize=True):
+def build_impl(tmp, log, extra_flags='', name='impl', sanitize=True, area='base'):
     t0 = time.time()
+    if os.path.exists(os.path.join(VERIF, 'harness', 'h_%s.inc' % area)):
+        extra_flags += ' -DAREA_INC=\'"h_%s.inc"\'' % area
     san = '-fsanitize=address,undefined -fno-sanitize-recover=all' if sanitize else ''
     cmd = ('gcc -O1 -g %s -fno-omit-frame-pointer -DENABLE_LOCALES -DCJSON_VERIF %s -I%s -I%s/harness '
            '%s/harness/impl_driver.c %s/cJSON.c %s/cJSON_Utils.c -lm -lpthread -o %s/%s'
@@ -191,10 +192,11 @@ def main():
     violations = []; known_hits = []; exit_code = 0
     try:
         # 1. proofs
-        pr = proof_step(pid, log)
+        area = getattr(mod, 'AREA', 'base')
+        pr = proof_step(pid, log, area)
         # 2. implementation
-        impl = build_impl(tmp, log)
-        model = os.path.join(VERIF, 'ocaml', 'driver')
+        impl = build_impl(tmp, log, area=area, extra_flags=getattr(mod, 'IMPL_FLAGS', ''))
+        model = os.path.join(VERIF, 'ocaml', 'driver_' + area)
         ctx = {'tmp': tmp, 'tier': tier, 'seed': seed, 'impl': impl, 'model': model, 'repo': REPO, 'verif': VERIF,
                'run_driver': run_driver, 'build_impl': build_impl, 'sh': sh, 'log': log}
         # 3. cases
